@@ -313,11 +313,12 @@ pub fn finalize(
             }
             let status = child.wait()?;
             if !status.success() {
-                eprintln!(
-                    "warning: {} failed: {}",
-                    "git update-ref".cyan().bold(),
+                // The batch is one transaction: when it fails, none of the branch updates and
+                // none of the deletions of old names took place. That is not a completed rewrite.
+                return Err(FilterRepoError::Io(io::Error::other(format!(
+                    "git update-ref failed: {}",
                     status
-                );
+                ))));
             }
         }
     }
